@@ -143,10 +143,11 @@ func (s *Store) ListOutboxEvents(
 			continue
 		}
 
-		filtered = append(filtered, outboxEvent)
-		if len(filtered) >= int(limit) {
+		if int64(len(filtered)) >= limit {
 			break
 		}
+
+		filtered = append(filtered, outboxEvent)
 	}
 
 	return filtered, nil
